@@ -601,6 +601,7 @@ func main() {
 	logger.SetLogLevel("*:NONE")
 	r := vk.Start("C24")
 	r.Rule("case = random transaction: nonce / gas price / gas limit from {0, JSON-number boundaries 2^53+-1, 2^63, 2^64-1, small, random}, value from {0, small, powers of ten, negative (O1/O2 only), up to 2^208}, receiver random / all-zero / equal to sender, user names and data nil / empty / call-data text / random bytes, chain ids incl. quotes, HTML characters, non-ASCII, U+2028, version and options 0..3 or random. Address length 32 (bech32 converter), other even lengths 2..50 in 1/8 of the O1/O2 cases. O1+O2 run on every case with ~30 one-field mutations and 6 two-field swaps; O3 runs on every eighth case in one of three scenarios (direct, relayed v1 inner, relayed v2 inner) with fresh ed25519 keys derived from the case PRNG; all receptions of a case share one real verified-transactions whitelist (WhiteListDataVerifier over a FIFO sharded cache, as the node wires it) and every mutated transaction (each one-field mutation, each swap, and the signature moved to an unrelated transaction of the same signer) is received two or three times, before and after the genuine one. Non-trivial = every case; shape = scenario + per-field value classes.")
+	r.Rule("reused-buffer phase (every fourth case): ONE transaction object and ONE converter instance for 4-9 GetDataForSigning calls; between the calls the sender / receiver buffer (separate, or one slice shared by both for a self-addressed transaction), data, chain id, user names are overwritten IN PLACE, the big.Int value is added to in place, nonce / gas limit change, or the same converter encodes a recycled scratch buffer twice; after every step the bytes must carry the current fields (recovered), equal the bytes for the same values in fresh memory with a fresh converter, and differ from the previous step's when a field changed.")
 	r.Assume("domain: addresses of the configured length, chain id valid UTF-8, Value non-nil",
 		"nil and empty byte slices are the same field value",
 		"O3 uses a stub fee handler (accepts all) and the real whitelist of verified transactions, one instance per case shared by all receptions; a genuine transaction legitimately whitelists its own hash, a mutated one has another hash; the relayer may re-sign its own outer transaction, the user signature is never recomputed after a mutation",
@@ -728,6 +729,10 @@ func main() {
 				scenario = "direct"
 				runDirect(r, c, e, chainID)
 			}
+		}
+		// ------------------------------------------------------------------ reused buffers (reuse.go)
+		if c.Idx%4 == 1 {
+			runReuse(r, c, e.signMarsh)
 		}
 		r.Shape(fmt.Sprintf("%s L%d %s", scenario, addrLen, shape))
 		if r.NeedSample() && c.Idx%13 == 0 {
